@@ -185,6 +185,41 @@ def case_hostname(tools, hostlen):
     return {'family': 'hostname', 'length': len(full), 'status': r.returncode, 'problems': probs, 'stderr': r.stderr.decode('latin-1')[-160:]}
 
 
+def case_long_name(tools, n, sub):
+    """A message whose FILE NAME has n bytes (NAME_MAX - 1, NAME_MAX; one more cannot exist on this platform, which is why the size test
+    of message_parse on me_name - a buffer of NAME_MAX + 1 - cannot fire here): it is parsed, matched and moved like any other."""
+    box = tools.box()
+    for d in ('src/new', 'src/cur', 'dst/new', 'dst/cur', 'tmp', 'home'):
+        os.makedirs(os.path.join(box, d))
+    suffix = ':2,FS' if sub == 'cur' else ''
+    name = 'n' * (n - len(suffix)) + suffix
+    probs = []
+    try:
+        with open(os.path.join(box, 'src', sub, name), 'wb') as fh:
+            fh.write(MSG)
+    except OSError as e:
+        shutil_rm(box)
+        if n <= NAME_MAX:
+            probs.append('cannot create a name of %d bytes: %s' % (n, e))
+        return {'family': 'long-name', 'length': n, 'status': 'not-creatable', 'problems': probs, 'stderr': str(e)[-100:]}
+    with open(os.path.join(box, 'conf'), 'w') as fh:
+        fh.write('maildir "%s/src" {\n\tmatch header "Subject" /./ flags "T" move "%s/dst"\n}\n' % (box, box))
+    env = {'PATH': os.environ.get('PATH', ''), 'HOME': box + '/home', 'TMPDIR': box + '/tmp', 'LD_PRELOAD': tools.shim, 'LC_ALL': 'C'}
+    env.update(proc.PIN)
+    r = subprocess.run([tools.mdsort, '-f', os.path.join(box, 'conf')], capture_output=True, env=env, cwd=box)
+    after = listing(box)
+    got = [p for p in after if p.startswith('./dst/')]
+    want = '1790000000.4242_8.host:2,' + ('FST' if sub == 'cur' else 'T')
+    if r.returncode != 0:
+        probs.append('exit status %d for a message whose name has %d bytes' % (r.returncode, n))
+    if [p[2:] for p in got] != ['dst/%s/%s' % (sub, want)]:
+        probs.append('expected exactly dst/%s/%s, found %s' % (sub, want, [p[-60:] for p in got]))
+    if any(p.startswith('./src/') and p.endswith(name[-20:]) for p in after):
+        probs.append('the message is still in src')
+    shutil_rm(box)
+    return {'family': 'long-name', 'length': n, 'status': r.returncode, 'problems': probs, 'stderr': r.stderr.decode('latin-1')[-160:]}
+
+
 def case_tmpdir(tools, total):
     box = tools.box()
     for d in ('dst/new', 'dst/cur', 'home'):
@@ -717,9 +752,11 @@ def unit_start(rep, sc):
 
 
 def pslice_spec(path, siz, beg, end):
-    """pathslice on an absolute normalised path: the components beg..end (negative: from the end; in a range -1 excludes the
-    last component), each preceded by '/' in a range; it fits iff it is shorter than the buffer."""
-    comps = path[1:].split(b'/')
+    """pathslice: the components beg..end of the path (negative: from the end; in a range -1 excludes the last component), in a range
+    each preceded by '/' - except the first component of a path WITHOUT a leading slash, which has none; it fits iff it is shorter than
+    the buffer.  A relative path counts its first component like any other (`src/new/1.host`: 0 = `src`)."""
+    isabs = path.startswith(b'/')
+    comps = (path[1:] if isabs else path).split(b'/')
     n = len(comps)
     rng = 0 if beg == end else 1
     if end < 0:
@@ -728,7 +765,10 @@ def pslice_spec(path, siz, beg, end):
         beg = n + beg - rng
     if beg < 0 or beg > end or end < 0 or end >= n:
         return None
-    res = b''.join(b'/' + c for c in comps[beg:end + 1]) if rng else comps[beg]
+    if rng:
+        res = b''.join((b'' if (i == 0 and not isabs) else b'/') + c for i, c in list(enumerate(comps))[beg:end + 1])
+    else:
+        res = comps[beg]
     return res if len(res) < siz else None
 
 
@@ -760,6 +800,21 @@ def unit_paths(rep, sc):
                 reqs.append(('pslice', path, str(siz).encode(), str(beg).encode(), str(end).encode()))
                 s = pslice_spec(path, siz, beg, end)
                 want.append('NONE' if s is None else 'OK ' + vlib.hexs(s))
+    # paths WITHOUT a leading slash (maildirs named relative to the working directory): `src/new/1.host`, `./src/new/x`, `src//new/x`,
+    # `../b/src/cur/x`, a single component, trailing slashes, the empty path - with the slices mdsort takes (maildir 0..-2, subdirectory
+    # -2, last component -1) and others, at every buffer size around the result
+    rels = [b'src/new/1.host', b'./src/new/1.host', b'src//new/1.host', b'src///cur/x', b'../box/src/cur/2.host:2,S', b'sub/../src/new/x', b'a', b'ab/c',
+            b'a/', b'a//', b'', b'.', b'..', b'x/new/' + b'n' * 255, b'd' * 300 + b'/new/1', b'.//src/new/1.host']
+    nrel = 0
+    for path in rels:
+        for beg, end in ((0, -2), (-2, -2), (-1, -1), (0, -1), (0, 0), (1, 1), (1, 2), (0, 1), (1, -1), (-3, -1), (-3, -3), (2, 1), (0, 9), (-9, -1)):
+            full = pslice_spec(path, 1 << 30, beg, end)
+            r = len(full) if full is not None else 4
+            for siz in sorted(set(range(max(0, r - 2), r + 3)) | {0, 1, 256, 4096}):
+                reqs.append(('pslice', path, str(siz).encode(), str(beg).encode(), str(end).encode()))
+                s = pslice_spec(path, siz, beg, end)
+                want.append('NONE' if s is None else 'OK ' + vlib.hexs(s))
+                nrel += 1
     lines = [vlib.Differential.line(r) for r in reqs]
     impl = vlib.run_batch([h], lines, env)
     model = vlib.run_batch([vlib.driver_path()], ['M ' + l for l in lines])
@@ -778,7 +833,7 @@ def unit_paths(rep, sc):
                     {'family': 'unit-' + r[0], 'harness': 'h_expr', 'request': l[:300], 'what': [what], 'implementation': i[:200], 'model': m[:200],
                      'specification': w[:200]})
     return {'requests': len(reqs), 'pjoin': sum(1 for r in reqs if r[0] == 'pjoin'), 'pslice': sum(1 for r in reqs if r[0] == 'pslice'),
-            'rejected': sum(1 for w in want if w == 'NONE'), 'spec_failures': len(bad_spec), 'model_mismatches': len(bad_model),
+            'pslice_relative_paths': nrel, 'rejected': sum(1 for w in want if w == 'NONE'), 'spec_failures': len(bad_spec), 'model_mismatches': len(bad_model),
             'model_examples': [{'request': l[:300], 'implementation': i[:100], 'model': m[:100]} for r, l, i, m, w in bad_model[:5]]}
 
 
@@ -826,7 +881,10 @@ def run(rep):
     for n in range(PATH_MAX - 2, PATH_MAX + 3):
         jobs.append(('envcopy', 'HOME', n))
         jobs.append(('envcopy', 'TMPDIR', n))
-    NEW = {'root': case_maildir_root, 'msg': case_message_path, 'isdir': case_isdirectory, 'destdecoy': case_destination_decoy,
+    for n in (NAME_MAX - 1, NAME_MAX, NAME_MAX + 1):
+        for sub in ('new', 'cur'):
+            jobs.append(('longname', n, sub))
+    NEW = {'longname': case_long_name, 'root': case_maildir_root, 'msg': case_message_path, 'isdir': case_isdirectory, 'destdecoy': case_destination_decoy,
            'defconf': case_default_conf}
 
     def do(j):
